@@ -53,6 +53,12 @@ def gen_cases(tier, seed):
             cases.append({"in": i, "out": o, "preserve": pres, "layout": lay,
                           "vseed": rnd.randrange(2 ** 32),
                           "n": 96 if tier == "quick" else 256})
+    # directed: large arrays (size-dependent code paths), 12 * 6000 elements
+    for i, o in itertools.product(IN_TYPES, OUT_TYPES):
+        if rnd.random() < (0.25 if tier == "quick" else 1.0):
+            cases.append({"in": i, "out": o, "preserve": rnd.random() < 0.5,
+                          "layout": rnd.choice(["C", "F", "strided", "readonly"]),
+                          "vseed": rnd.randrange(2 ** 32), "n": 72000, "large": True})
     return cases
 
 
@@ -162,7 +168,8 @@ def run_case(case):
     v = []
     obs = {"elements": 0, "ties": 0, "saturated": 0, "exact_preserved": 0,
            "pairs": {f"{i}->{o}": 1}, "layouts": {case["layout"]: 1},
-           "preserve_true": int(case["preserve"]), "preserve_false": int(not case["preserve"])}
+           "preserve_true": int(case["preserve"]), "preserve_false": int(not case["preserve"]),
+           "large_arrays": int(bool(case.get("large")))}
     try:
         tr = get_chunk_dtype_transformer(np.dtype(i), np.dtype(o), warn=False)
         with np.errstate(all="ignore"):
@@ -228,4 +235,5 @@ def gates(obs, tier):
         "both_reuse_modes": obs.get("preserve_true", 0) > 0 and obs.get("preserve_false", 0) > 0,
         "ties_seen": obs.get("ties", 0) > 100,
         "saturation_seen": obs.get("saturated", 0) > 100,
+        "arrays_of_tens_of_thousands_of_elements": obs.get("large_arrays", 0) > 3,
     }
